@@ -38,6 +38,9 @@ type c13Case struct {
 	// ViaPAR: the request is pushed first. "mode-pushed": response_mode is part of the pushed request;
 	// "mode-added": it is left out of the push and appended to the front-channel request instead
 	ViaPAR string `json:"via_par,omitempty"`
+	// RegQuery: the registered redirect URI carries query parameters of its own that are named like response
+	// parameters (state, scope)
+	RegQuery bool `json:"registered_uri_has_state_and_scope_query,omitempty"`
 }
 
 func strOfLen(n int) string { return strings.Repeat("s", n) }
@@ -64,6 +67,11 @@ func c13Run(c c13Case, res *WRes) {
 	base.ResponseTypes = c.RegRT
 	base.GrantTypes = c.RegGrants
 	base.RedirectURIs = []string{"https://v.example/cb", "https://v.example/cb2"}[:max(1, c.URIs)]
+	redirectURI := "https://v.example/cb"
+	if c.RegQuery {
+		redirectURI = "https://v.example/cb?state=landing&scope=landing"
+		base.RedirectURIs[0] = redirectURI
+	}
 	var cl fosite.Client = base
 	if c.RegModes != nil {
 		var ms []fosite.ResponseModeType
@@ -136,7 +144,7 @@ func c13Run(c c13Case, res *WRes) {
 		p.Set("scope", c.Scope)
 	}
 	if !c.NoRedir {
-		p.Set("redirect_uri", "https://v.example/cb")
+		p.Set("redirect_uri", redirectURI)
 	}
 	if c.Mode != "" {
 		p.Set("response_mode", c.Mode)
@@ -194,7 +202,24 @@ func c13Run(c c13Case, res *WRes) {
 	}
 	// (j) state echoed unchanged on success and on redirected errors
 	if (o.Location != "" || o.FormPost != nil) && c.RO == "" && c.State != "-" {
-		if got := o.Param("state"); got != c.State {
+		got := o.Param("state")
+		if c.RegQuery {
+			// the client reads the response from the channel it was delivered in
+			switch {
+			case o.FormPost != nil:
+				got = o.FormPost["state"]
+			case o.Fragment.Get("state") != "" || o.Fragment.Get("error") != "" || o.Fragment.Get("code") != "" || o.Fragment.Get("access_token") != "" || o.Fragment.Get("id_token") != "":
+				got = o.Fragment.Get("state")
+			default:
+				// the value a client reads with url.Values.Get (the first one); the error writer appends the registered
+				// URI's own parameters after the response parameters, which leaves a second state value behind it
+				got = o.Query.Get("state")
+				if n := len(o.Query["state"]); n > 1 {
+					res.note("registered-query-parameter-repeated-after-the-response-parameter")
+				}
+			}
+		}
+		if got != c.State {
 			viol("C13/state-not-echoed/"+map[bool]string{true: "success", false: "error"}[accepted], fmt.Sprintf("the redirect carries state %q, the request sent %q", got, c.State), c.State, o.Location)
 		}
 	}
@@ -484,6 +509,9 @@ func c13Cases(group string) []c13Case {
 						cs = append(cs, c13Case{Group: group, RegRT: all, RegGrants: allG, RegModes: rm, URIs: 1, RT: rt, Mode: m, State: okState, Nonce: okNonce, Scope: sc})
 						cs = append(cs, c13Case{Group: group, RegRT: all, RegGrants: allG, RegModes: rm, URIs: 1, RT: rt, Mode: m, State: okState, Nonce: okNonce, Scope: sc, ViaPAR: "mode-pushed"})
 						cs = append(cs, c13Case{Group: group, RegRT: all, RegGrants: allG, RegModes: rm, URIs: 1, RT: rt, Mode: m, State: okState, Nonce: okNonce, Scope: sc, ViaPAR: "mode-added"})
+						if len(rm) == 3 {
+							cs = append(cs, c13Case{Group: group, RegRT: all, RegGrants: allG, RegModes: rm, URIs: 1, RT: rt, Mode: m, State: okState, Nonce: okNonce, Scope: sc, RegQuery: true})
+						}
 					}
 				}
 			}
